@@ -303,11 +303,16 @@ fn ref_unpack(t: &Ty, buf: &[u8], num: Num) -> Result<Val, &'static str> {
     let len = packed_len(t);
     if let Ty::Tup(ts) = t {
         // a tuple has no PACKED_LEN of its own: components are decoded one after the other from what is left,
-        // the first failing component decides the error
+        // the first failing component decides the error; a component that was content with fewer bytes than its packed
+        // length (heapless::Vec / heapless::String) although bytes were there is refused: ReadBufferTooShort
         let mut vs = Vec::new();
         let mut p = 0;
         for t in ts {
-            vs.push(ref_unpack(t, &buf[p.min(buf.len())..], num)?);
+            let rest = &buf[p.min(buf.len())..];
+            vs.push(ref_unpack(t, rest, num)?);
+            if !rest.is_empty() && packed_len(t) > rest.len() {
+                return Err("ReadBufferTooShort");
+            }
             p += packed_len(t);
         }
         return Ok(Val::Seq(vs));
@@ -1606,8 +1611,9 @@ fn impl_family_corpus_lines() -> Vec<&'static str> {
         "c19 unpack a(2,hv(2,u8)) 01020304",
         "c19 unpack a(2,hs(2)) 4142c3a9",
         "c19 unpack a(2,hs(2)) 41c3a942",
-        // tuples holding a variable-length component: on a short buffer the walk indexes `&buf[PACKED_LEN..]` out of range
-        // (known finding c19/impl-tuple-varlen-short-panic); with enough bytes they decode / are refused
+        // tuples holding a variable-length component: on a short buffer the walk used to index `&buf[PACKED_LEN..]` out of
+        // range (former defect c19/impl-tuple-varlen-short-panic, fix-c19-tuple-short): ReadBufferTooShort now; with enough
+        // bytes they decode / are refused as before
         "c19 unpack t(hv(4,u8),u8) 0102",
         "c19 unpack t(hs(4),u8) 6162",
         "c19 unpack t(u8,hv(2,u8)) 0102",
@@ -1790,8 +1796,9 @@ fn impl_family_cases(rng: &mut Rng, t: &Ty, thorough: bool, out: &mut Vec<String
     }
 }
 
-/// A panic of this kind is the known finding: a tuple with a `heapless::Vec` / `heapless::String` component (which
-/// decode fewer bytes than their PACKED_LEN without complaint) on a buffer shorter than the tuple's packed length.
+/// A panic of this kind is a regression of the repaired defect (fix-c19-tuple-short): a tuple with a `heapless::Vec` /
+/// `heapless::String` component (which decode fewer bytes than their PACKED_LEN without complaint) on a buffer shorter than
+/// the tuple's packed length. Reported under its own key.
 fn tuple_varlen_short(t: &Ty, n: usize) -> bool {
     matches!(t, Ty::Tup(ts) if ts.iter().any(|c| matches!(c, Ty::HVec(..) | Ty::HStr(_)))) && n < packed_len(t)
 }
